@@ -52,7 +52,7 @@ def case_variants(s):
 
 
 def examples(tier):
-    return 700 if tier == "quick" else 12000
+    return 4200 if tier == "quick" else 56000
 
 
 # ---------------------------------------------------------------- (a) literals, exhaustive
